@@ -23,9 +23,9 @@ pub open spec fn next_of(s: NoiseStep) -> NextNoiseStep { match s { NoiseStep::P
 impl PeerChannelEncryptor {
 //@extract lightning/src/ln/peer_channel_encryptor.rs :: impl PeerChannelEncryptor :: fn get_noise_step
 //@rw R16
-    NoiseState::InProgress { ref state, .. } => match state { &NoiseStep::PreActOne => NextNoiseStep::ActOne, &NoiseStep::PostActOne => NextNoiseStep::ActTwo, &NoiseStep::PostActTwo => NextNoiseStep::ActThree, },
+    NoiseState::InProgress { ref state, .. } => match state { &NoiseStep::$x:ident => $a:seq, &NoiseStep::$y:ident => $b:seq, &NoiseStep::$z:ident => $c:seq, },
 //@with
-    NoiseState::InProgress { state, .. } => match state { NoiseStep::PreActOne => NextNoiseStep::ActOne, NoiseStep::PostActOne => NextNoiseStep::ActTwo, NoiseStep::PostActTwo => NextNoiseStep::ActThree, },
+    NoiseState::InProgress { state, .. } => match state { NoiseStep::$x => $a, NoiseStep::$y => $b, NoiseStep::$z => $c, },
 //@rw R16
     match self.noise_state {
 //@with
